@@ -274,7 +274,14 @@ def t_gpt(rng):
         kinds = ['ee', 'empty', 'empty', 'empty']
     for i, k in enumerate(kinds):
         if k == 'empty':
-            slots.append(None)
+            if rng.random() < 0.12:
+                # unused entry (type 0) that still carries a boot indicator
+                bf = rng.choice((0x80, 0x80, 1, 0x7f, 0x81, 0xff, 0x40))
+                slots.append([bf, 0, [0, 0, 0], 0, 0])
+                if bf != 0x80:
+                    reasons.append('boot_flag_on_unused_entry')
+            else:
+                slots.append(None)
             continue
         s = G.gen_slot(rng, 'ee' if k == 'ee' else 'plain')
         bf = weighted(rng, [(0, 5), (0x80, 2), ('bad', 1)])
@@ -293,7 +300,7 @@ def t_gpt(rng):
                 s[3] = rng.choice((0, 2, 63, 2048, 0xffffffff))
                 reasons.append('protective_lba')
         slots.append(s)
-    nonempty = [i for i, s in enumerate(slots) if s is not None]
+    nonempty = [i for i, s in enumerate(slots) if s is not None and s[1]]
     ee = [i for i, s in enumerate(slots) if s is not None and s[1] == 0xEE]
     if not nonempty:
         reasons.append('no_partition')
